@@ -210,10 +210,11 @@ def run(chk, only_corpus=False):
         "is not modelled (no panic / hang there is observed by the correspondence run only)",
         "type-system definitions and descriptions are outside the parser/printer model (model answers Unsup); for them only "
         "the Go-side round-trip and totality checks apply",
-        "round trip: proved on the model are parse_wf, the token-level inversion print_parse and, from them, "
-        "roundtrip_partial whose lexical hypothesis lex_print_ok_b (lexing the printed bytes yields the token-level print) "
-        "is NOT proved in general; the driver evaluates it on every accepted executable document and reports "
-        "corr:C05/lex-print if it fails although all strings are re-quotable",
+        "round trip: proved on the model in full (c05_lex_print, c05_roundtrip, c05_print_fixpoint): for every document "
+        "parse_bytes returns, lexing the printed bytes yields the token-level print, hence parse(print d) = d and the print is a "
+        "fixed point; side conditions: input and print shorter than 2^32 bytes, PrintIndent's indent argument consists of "
+        "insignificant characters only (necessary: c05_indent_must_be_ws). The driver still evaluates lex_print_ok_b on every "
+        "accepted executable document as a correspondence check of the implementation (corr:C05/lex-print)",
         "no round-trip failure of the implementation is attributed to a listed finding any more (the four causes "
         "rt-nul-in-string, rt-block-string-edge, rt-sdl-empty-body-dropped, rt-string-line-continuation are repaired; their "
         "inputs are regression cases in corpus/C05); the driver only adds a diagnostic when a stored string is not re-quotable "
